@@ -110,18 +110,12 @@ Definition inrange (w : list Qc) (x : Qc) : bool := qleb (wmin w) x && qleb x (w
 (* ---------------------------------------------------------------- fill value *)
 Inductive fillv := FScalar (f : Qc) | FPair (lo hi : Qc).
 
-(* `fill_value * np.ones(commonwave.shape)`: a scalar fills every slot; a two-element tuple is
-   broadcast by numpy against the whole grid, which only succeeds for a grid of exactly two points
-   (then slot 0 gets lo and slot 1 gets hi); a one-point grid makes the value longer than the wave
-   and the constructor refuses it - ValueError in both cases.
-   [fx = true] is the behaviour after proposed_fixes/c13-fill-pair.patch: lo below the operand's
-   range and hi above it. *)
-Definition fillarr (fx : bool) (f : fillv) (w : list Qc) (grid : list Qc) : result (list Qc) :=
+(* _fill_array(fill_value, wave, commonwave): a scalar fills every slot; a two-element value is
+   (below, above) the operand's own range: np.where(commonwave < wave.min(), below, above) *)
+Definition fillarr (f : fillv) (w : list Qc) (grid : list Qc) : list Qc :=
   match f with
-  | FScalar c => Ok (map (fun _ => c) grid)
-  | FPair lo hi =>
-      if fx then Ok (map (fun x => if qltb x (wmin w) then lo else hi) grid)
-      else match grid with [_; _] => Ok [lo; hi] | _ => Err ValueError end
+  | FScalar c => map (fun _ => c) grid
+  | FPair lo hi => map (fun x => if qltb x (wmin w) then lo else hi) grid
   end.
 
 Fixpoint map2 {A B C} (f : A -> B -> C) (a : list A) (b : list B) : list C :=
@@ -170,19 +164,18 @@ Definition common_grid (w1 w2 : list Qc) (m : sampling) : result (list Qc) :=
   rbind (sampling_of w1 w2 m) (fun dw =>
   Ok (linspace mn mx (qceil ((mx - mn) / dw)))).
 
-Definition core (fx : bool) (o : binop) (w1 v1 w2 v2 : list Qc) (m : sampling) (f : fillv)
+Definition core (o : binop) (w1 v1 w2 v2 : list Qc) (m : sampling) (f : fillv)
   : result (list Qc * list xval) :=
   rbind (common_grid w1 w2 m) (fun grid =>
-  rbind (fillarr fx f w1 grid) (fun f1 =>
-  rbind (fillarr fx f w2 grid) (fun f2 =>
-  Ok (grid, map2 (apply o) (sample_on w1 v1 f1 grid) (sample_on w2 v2 f2 grid))))).
+  Ok (grid, map2 (apply o) (sample_on w1 v1 (fillarr f w1 grid) grid)
+                           (sample_on w2 v2 (fillarr f w2 grid) grid))).
 
 (* Spectrum (op) Spectrum: the right operand is brought to the left operand's wavelength unit on a
    copy; the result carries the left operand's units *)
-Definition spec_op (fx : bool) (o : binop) (s1 s2 : spectrum) (m : sampling) (f : fillv)
+Definition spec_op (o : binop) (s1 s2 : spectrum) (m : sampling) (f : fillv)
   : result rspectrum :=
   let s2' := conv s2 (wu s1) in
-  rbind (core fx o (wave s1) (value s1) (wave s2') (value s2') m f) (fun gv =>
+  rbind (core o (wave s1) (value s1) (wave s2') (value s2') m f) (fun gv =>
   Ok (mkR (fst gv) (snd gv) (wu s1) (vu s1))).
 
 (* Spectrum (op) scalar *)
@@ -200,21 +193,21 @@ Definition vector_op (o : binop) (s : spectrum) (l : list Qc) : result rspectrum
 
 Inductive operand := PScalar (c : Qc) | PVector (l : list Qc) | PSpectrum (s : spectrum) | POther.
 
-Definition ufunc (fx : bool) (o : binop) (s : spectrum) (other : operand) (m : sampling) (f : fillv)
+Definition ufunc (o : binop) (s : spectrum) (other : operand) (m : sampling) (f : fillv)
   : result rspectrum :=
   match other with
   | PScalar c => Ok (scalar_op o s c)
   | PVector l => vector_op o s l
-  | PSpectrum s2 => spec_op fx o s s2 m f
+  | PSpectrum s2 => spec_op o s s2 m f
   | POther => Err TypeError
   end.
 
 (* s + x, s - x, s * x, s / x, s ** x *)
-Definition dunder (fx : bool) (o : binop) (s : spectrum) (other : operand) : result rspectrum :=
-  ufunc fx o s other SMin (FScalar 0).
+Definition dunder (o : binop) (s : spectrum) (other : operand) : result rspectrum :=
+  ufunc o s other SMin (FScalar 0).
 (* x (op) s for a non-Spectrum x: the class only defines __rmul__ = __mul__ *)
-Definition rdunder (fx : bool) (o : binop) (s : spectrum) (other : operand) : result rspectrum :=
-  match o with OMul => dunder fx OMul s other | _ => Err TypeError end.
+Definition rdunder (o : binop) (s : spectrum) (other : operand) : result rspectrum :=
+  match o with OMul => dunder OMul s other | _ => Err TypeError end.
 
 (* the result re-expressed in another wavelength unit (valueunit None) *)
 Definition rto (r : rspectrum) (u : wunit) : rspectrum :=
